@@ -190,6 +190,8 @@ func main() {
 	specKinds := flag.String("spec-kinds", "fg,fw,fs,fl", "segmenters for the SPEC stage")
 	specStep := flag.Bool("spec-step", true, "also compare the matching Step/StepString flags with the spec")
 	algs := flag.String("algs", "gr,wb,sb,lb", "restrict E1/E3 to these rule sets")
+	flag.BoolVar(&allocFirst, "alloc-first", false, "ALLOC: also measure single first calls on fresh code points (search only)")
+	flag.StringVar(&allocFirstInput, "alloc-first-input", "", "ALLOC: replay single first calls on this input (hex)")
 	e2props := flag.String("props", "g,w,s,l,e,m,G,L,E", "restrict E2 to these lookups")
 	inputsFile := flag.String("inputs-file", "", "file with one hex input per line; replaces the corpus and, with -n 0, the generated stream")
 	stress := flag.Int("stress", 0, "concurrency stress with this many goroutines (no other stage runs); build with -race")
